@@ -312,7 +312,8 @@ def run_engine(prop: str, tier: str, lean_modules: List[str], profiles: List[Pro
             if i.alerts:
                 agree = False
                 what = {'covbad': "the counters coverage<>() produced do not satisfy start = success + failure + unwind for every rule and branch",
-                        'SHUF-BAD': "a control hook below a state-shuffling adaptor was handed the states in the wrong order"}
+                        'SHUF-BAD': "a control hook below a state-shuffling adaptor was handed the states in the wrong order",
+                        'COPY-BAD': "a state object handed to parse() was copied on the way to a rule, hook or action (states are passed on by reference)"}
                 hits.append(('harness-alert', '; '.join(f"{what.get(a.split()[0], 'harness alert')}: '{a}'" for a in i.alerts[:3])))
             for oname, ofn in prof.oracles:
                 if oname == 'sem':
